@@ -397,3 +397,9 @@ def r11(ctx, R):
     c06.r1(ctx, R)
     c06.r2(ctx, R)
     c06.r4(ctx, R)
+
+
+@rule('C09', 'C09.R12', 'retry bound per step: a step that is computed for the first time starts with a zero retry counter - after prepare_next_block every slot of the next block has been assigned one (coverage analysis shared with C19.R8)', floor=1)
+def r12(ctx, R):
+    from . import c19
+    c19.r8(ctx, R)
